@@ -20,7 +20,7 @@ ASSUMPTIONS = [
     "tracks are ENU, 2..12 fixes (enumerated part: 2..4 fixes on {0,1,2}^2), strictly increasing timestamps "
     "1 s apart, so every observation record (x, y, z, t) is unique and the subsequence embedding is unique",
     "float tracks: coordinates = offset + magnitude * k/2^40 (|k| <= 2^40), magnitude in {1, 1e3, 1e6}, so two coordinates are "
-    "equal or differ by >= 1e-12 (squares of legs do not underflow - neither in tracklib nor in the reference distance)",
+    "equal or differ by >= 2^-40 ~ 9e-13 (squares of legs do not underflow - neither in tracklib nor in the reference distance)",
     "tolerance > 0 and finite, from 1e-3 x extent to 1e3 x extent, plus lattice-aligned values and values equal to "
     "the exact distance of a fix from the end-to-end chord (ties with the tolerance)",
     "Douglas-Peucker bound: planar distance of every input fix to the output polyline <= tol + 1e-9*(tol + max|coordinate|) "
@@ -61,7 +61,6 @@ def _features_of(pts):
         cls.append("all-identical")
     if _collinear_triple(pts):
         cls.append("collinear-triple")
-    # a zero-length chord can also appear below the top level: some fix i>0 equal to fix 0, or some fix equal to the last
     return cls
 
 
@@ -102,14 +101,12 @@ def _check(case):
     if idx[-1] != n - 1:
         raise Violation(mode + "-last-fix-dropped", "input %s tol %r -> kept indices %s" % (pts, tol, idx))
     # -- tolerance (Douglas-Peucker only) -----------------------------------------------------------
-    worst = 0.0
     if mode == "dp":
         kept = [pts3[i] for i in idx]
         scale = max(max(abs(p[0]), abs(p[1])) for p in pts3)
         bound = tol + 1e-9 * (tol + scale)
         for i, p in enumerate(pts3):
             d = oracle.pt_polyline_dist(p[0], p[1], kept)
-            worst = max(worst, d)
             if d > bound:
                 raise Violation("dp-tolerance-exceeded", "fix %d %s is %r away from the simplified line %s, tol %r" % (
                     i, p, d, kept, tol))
@@ -121,8 +118,11 @@ def _check(case):
     cls.append("n=%d" % n)
     ext = _extent(pts3)
     cls.append("tol<extent/100" if tol < ext / 100 else "tol>=extent" if tol >= ext else "tol-mid")
-    if mode == "dp" and shorter and worst > 0 and worst >= tol * (1 - 1e-9):
-        cls.append("dp:worst-fix-at-tolerance")
+    chord = [oracle.pt_seg_dist(p[0], p[1], pts3[0][0], pts3[0][1], pts3[-1][0], pts3[-1][1]) for p in pts3]
+    if any(abs(d - tol) <= 1e-12 * tol for d in chord):
+        cls.append(mode + ":tol==distance-of-a-fix-from-the-chord")
+        if abs(max(chord) - tol) <= 1e-12 * tol:
+            cls.append(mode + ":tol==distance-of-the-farthest-fix")
     return {"nt": special and shorter, "cls": cls}
 
 
@@ -157,15 +157,18 @@ def body_small(case):
 _STEPS = [(0, 0), (1, 0), (1, 0), (0, 1), (0, 1), (-1, 0), (0, -1), (1, 1), (-1, 1), (1, -1), (2, 0), (0, 2), (2, 1), (1, 2)]
 
 
+_SIZE = st.sampled_from([3, 4, 5, 6, 7, 8, 9, 10, 11, 12, 2, 3, 4, 5, 6, 8, 12])     # 2..12, two-fix tracks kept rare (they are returned as is)
+
+
 @st.composite
 def _lattice_track(draw):
     kind = draw(st.sampled_from(["free", "free", "walk", "walk", "runs", "closed", "revisit", "same", "spike"]))
     if kind == "free":
-        n = draw(st.integers(2, 12))
+        n = draw(_SIZE)
         side = draw(st.sampled_from([1, 2, 4, 8]))
         pts = [(draw(st.integers(0, side)), draw(st.integers(0, side))) for _ in range(n)]
     elif kind == "walk":
-        n = draw(st.integers(2, 12))
+        n = draw(_SIZE)
         x, y = draw(st.integers(0, 4)), draw(st.integers(0, 4))
         pts = [(x, y)]
         for _ in range(n - 1):
@@ -193,7 +196,7 @@ def _lattice_track(draw):
         dst = draw(st.integers(0, n))
         pts.insert(dst, pts[src])
     elif kind == "same":
-        n = draw(st.integers(2, 12))
+        n = draw(_SIZE)
         p = (draw(st.integers(0, 4)), draw(st.integers(0, 4)))
         pts = [p] * n
     else:                          # spike: nearly straight line with one small excursion (Visvalingam removes everything)
@@ -208,7 +211,7 @@ def _lattice_track(draw):
 
 @st.composite
 def _float_track(draw):
-    n = draw(st.integers(2, 12))
+    n = draw(_SIZE)
     mag = draw(st.sampled_from([1.0, 1e3, 1e6]))
     f = st.integers(-2 ** 40, 2 ** 40).map(lambda k: k / 2.0 ** 40)     # 41-bit fractions: no subnormal legs, squares never underflow
     off = draw(st.sampled_from([0.0, 0.0, 1e6]))
@@ -227,7 +230,7 @@ def strat_track(draw):
     ext = _extent(pts)
     kind = draw(st.sampled_from(["factor", "factor", "aligned", "tie", "tie"]))
     if kind == "factor":
-        tol = ext * draw(st.sampled_from([1e-3, 0.1, 0.3, 1.0, 10.0, 1e3]))
+        tol = ext * draw(st.sampled_from([1e-3, 0.01, 0.1, 0.1, 0.3, 0.3, 1.0, 10.0, 1e3]))
     elif kind == "aligned":
         unit = min([abs(pts[i + 1][j] - pts[i][j]) for i in range(len(pts) - 1) for j in (0, 1)
                     if pts[i + 1][j] != pts[i][j]] or [1.0])
@@ -236,7 +239,7 @@ def strat_track(draw):
         k = draw(st.integers(0, len(pts) - 1))
         tol = oracle.pt_seg_dist(pts[k][0], pts[k][1], pts[0][0], pts[0][1], pts[-1][0], pts[-1][1])
         if not tol > 0:
-            tol = ext
+            tol = 0.1 * ext
     mode = draw(st.sampled_from(["dp", "dp", "vv"]))
     return {"mode": mode, "pts": pts, "tol": tol}
 
@@ -255,5 +258,5 @@ RULE = ("small: every track of 2..3 (quick) / 2..4 (thorough) fixes on the latti
 SUBCHECKS = [
     SubCheck("small", body_small, enum=enum_small, rule="all lattice tracks of <= 3/4 fixes x 2 algorithms x 6 tolerances",
              qshards=4, tshards=16),
-    SubCheck("tracks", body_track, strategy=strat_track, quick=6000, thorough=200000, qshards=8),
+    SubCheck("tracks", body_track, strategy=strat_track, quick=12000, thorough=200000, qshards=8),
 ]
